@@ -19,7 +19,7 @@ func init() {
 		Explanation: "Decided: (R1) the supervising actor consults SupervisionStrategy.Supervise exactly once per failure, on its own strategy if set, else the system's; (R2) the one-for-one strategy returns the failing child, the one-for-all strategy the supervisor's children, and the supervision context's accessors return exactly those sets; " +
 			"(R3) every message told while supervising goes to a target, a chained context's target, or the supervisor's parent; (R4) restart / stop / resume / escalate bodies are entered under their own predicate, each does what the directive says, and every decision value enters one of them (unknown ⇒ escalate); " +
 			"(R5) a failure pauses the failing actor's mailbox before its parent is told, and the failure entry is reachable only from the recover block; (R6) no supervision for a failure while handling OnKill, nor OnKilled when the actor is not running or the notice names itself. " +
-			"(R7) the targets recorded in the supervision context (which later resume broadcasts walk) are exactly the strategy's targets that the supervisor paused; (R8) the restart marker, which the termination pipeline trusts to choose between clean-up and re-initialisation, is stored only under the success edge of CAS(state, running→killing): a Restart reaching an actor that is already stopping leaves no trace and cannot revive it; (R9 = C05.R4) the restart step installs the new instance before resetting the behaviour stack to its OnReceive. (R7, addition) apply-decision records the handed targets on every path and before any tell, broadcast, pause or escalation; (R10 = C01.R6) the suspension is effective: a paused mailbox hands no user message over. (R11 = C01.R2) a decision sent to a suspended child is never stranded by the consumer's exit re-check; (R12 = C03.R2) a stopping actor runs no user message, so it cannot fail and be supervised again while it stops. NOT decided: the run-time effect of each (decision × strategy × failure site) cell.",
+			"(R7) the targets recorded in the supervision context (which later resume broadcasts walk) are exactly the strategy's targets that the supervisor paused; (R8) the restart marker, which the termination pipeline trusts to choose between clean-up and re-initialisation, is stored only under the success edge of CAS(state, running→killing): a Restart reaching an actor that is already stopping leaves no trace and cannot revive it; (R9 = C05.R4) the restart step installs the new instance before resetting the behaviour stack to its OnReceive. (R7, addition) apply-decision records the handed targets on every path and before any tell, broadcast, pause or escalation; (R10 = C01.R6) the suspension is effective: a paused mailbox hands no user message over. (R11 = C01.R2) a decision sent to a suspended child is never stranded by the consumer's exit re-check; (R12 = C03.R2) a stopping actor runs no user message, so it cannot fail and be supervised again while it stops. (R13 = the removal-order check of C06.R6) the child table that target selection reads holds no entry of a dead child when that child's death handler runs. NOT decided: the run-time effect of each (decision × strategy × failure site) cell.",
 		Rules: []Rule{
 			{ID: "C08.R1", Min: 2, Desc: "strategy consulted exactly once; own else system", Fn: c08Consult},
 			{ID: "C08.R2", Min: 4, Desc: "target selection of both strategies and the context accessors", Fn: c08Targets},
@@ -28,6 +28,9 @@ func init() {
 			{ID: "C08.R5", Min: 3, Desc: "failure entry: pause before telling the parent; only from recover", Fn: c08FailureEntry},
 			{ID: "C08.R6", Min: 3, Desc: "no supervision while stopping", Fn: c08NotWhileStopping},
 			{ID: "C08.R7", Min: 2, Desc: "the recorded targets are exactly the targets that were paused", Fn: c08RecordedTargets},
+			{ID: "C08.R13", Min: 1, Desc: "the child table the target selection reads is exact: a dead child's entry is removed before its death handler can re-spawn the name (C06.R6)", Fn: func(p *Program, r *Report) {
+				r.only(c06ChainOrder, func(c string) bool { return strings.Contains(c, "child entry removed") })
+			}},
 			{ID: "C08.R8", Min: 1, Desc: "a restart is accepted only by a running actor: the restart marker is stored under the won CAS", Fn: c08RestartAccepted},
 			{ID: "C08.R11", Min: 2, Desc: "a decision sent to a suspended child is never stranded: the consumer's exit re-check notices a pending system message whatever the pause flag says (C01.R2)", Fn: c01Release},
 			{ID: "C08.R12", Min: 12, Desc: "a stopping actor runs no user message, so it cannot fail again and be supervised while it stops (C03.R2 guard truth table)", Fn: c03Guard},
@@ -1171,6 +1174,8 @@ func c09Zombie(p *Program, r *Report) {
 		return anyContains(p.origins(recv), "OnKilled.Ref<-") && allContain(p.origins(args[len(args)-1]), lc.pat(lc.RefF))
 	})
 	okD := len(ozT) > 0 && len(clean) > 0
+	// the release is one-shot (C06.R1): the edge on which its set-once latch is already set is a release that already happened
+	selfF = mergeEdges(selfF, p.latchSetEdges(lc, og))
 	for e := range ozT {
 		if !clean[e.to] && anyIn(og.Reach([]int{e.to}, clean, selfF), og.Exits) {
 			okD = false
@@ -1742,4 +1747,44 @@ func c09CommandsObeyed(p *Program, r *Report) {
 	if n == 0 {
 		r.Unresolved("no pause / resume case in the command handler")
 	}
+}
+
+// latchSetEdges: the edges of g on which a set-once bool latch of the context (a field that g itself sets to true and that nothing in
+// the module ever sets to anything else) is found already set.
+func (p *Program) latchSetEdges(lc *lifecycle, g *IG) map[edge]bool {
+	out := map[edge]bool{}
+	mono := map[*types.Var]int{}
+	for _, ef := range p.edgeFacts(g) {
+		f := ef.Field
+		if f == nil || f == lc.Zombie || !ef.Fact.Bool || ef.Fact.Op != token.NEQ || !isBool(f.Type()) || fieldVar(lc.Ctx, f.Name()) != f {
+			continue
+		}
+		if mono[f] == 0 {
+			mono[f] = 1
+			setHere := false
+			for _, a := range p.fieldAccesses(map[*types.Var]bool{f: true}) {
+				if !a.Write || a.Fresh {
+					continue
+				}
+				st, isSt := a.In.(*ssa.Store)
+				b, isC := false, false
+				if isSt {
+					b, isC = constBool(st.Val)
+				}
+				if !isSt || !isC || !b {
+					mono[f] = 2
+				}
+				if _, in := g.Idx[a.In]; in {
+					setHere = true
+				}
+			}
+			if !setHere {
+				mono[f] = 2
+			}
+		}
+		if mono[f] == 1 {
+			out[ef.E] = true
+		}
+	}
+	return out
 }
